@@ -590,6 +590,28 @@ theorem stream_lexes (data : Bytes) (fuel : Nat) (rd : Reader) (h : RInv rd data
       | ub => simp only at hk
       | fuel => simp only at hk
 
+/-! ### the executable form of `Fits` -/
+
+theorem fitsLoop_sound (cap fuel : Nat) (d : Bytes) (h : fitsLoop cap fuel d = true) : Fits cap d := by
+  induction fuel generalizing d with
+  | zero => simp [fitsLoop] at h
+  | succ fuel ih =>
+    simp only [fitsLoop, Bool.and_eq_true, List.all_eq_true, List.mem_range] at h
+    obtain ⟨h1, h2⟩ := h
+    refine Fits.mk d ?_ ?_
+    · intro k hk he
+      have := h1 k (by omega)
+      rw [he] at this
+      simpa using this
+    · intro t r hrt
+      rw [hrt] at h2
+      exact ih r h2
+
+/-- `fitsBuffer cap d = true` (computable, also evaluated by the driver op `bfits` against the
+harness' `min_cap`) implies the hypothesis of the streaming theorems -/
+theorem fitsBuffer_sound (cap : Nat) (d : Bytes) (h : fitsBuffer cap d = true) : Fits cap d :=
+  fitsLoop_sound cap _ d h
+
 /-! ### initial states -/
 
 theorem rinv_build (buffer data : Bytes) (sched : List Step) (hcap : 0 < buffer.length)
